@@ -259,7 +259,66 @@ def check_gssvx(ev):
     u = tok(ev["opts"]["u"])
     if "L" not in ev or "rowind" not in ev["L"]:
         return res
-    if ilu:
+    if ilu and not (ev["opts"]["DropRule"] == 0 and info == 0):
+        # incomplete factors: X must be the solve with the returned factors, i.e. solve the system of the matrix
+        # M = Pr' L U Pc' (AA orientation) within the backward-error bound of two triangular solves
+        if not (0 <= info <= n + 1) or ev.get("nrhs", 0) == 0 or "X1" not in ev:
+            return res
+        try:
+            DL, DU = dense_LU(ev)
+        except Exception:
+            return res
+        pr, pc = ev["perm_r"], ev["perm_c"]
+        if sorted(pr) != list(range(n)) or sorted(pc) != list(range(n)):
+            return res
+        E = absmat_prod(DL, DU, n, n)
+        LUp = [[Z] * n for _ in range(n)]
+        for i in range(n):
+            for j in range(n):
+                s_ = Z
+                for k in range(min(i, j) + 1):
+                    if DL[i][k] != Z and DU[k][j] != Z:
+                        s_ = cadd(s_, cmul(DL[i][k], DU[k][j]))
+                LUp[i][j] = s_
+        q = ev["equed"]
+        R = [tok(t) if q in "RB" else Fr(1) for t in ev["R"]]
+        C = [tok(t) if q in "CB" else Fr(1) for t in ev["C"]]
+        if any(d <= 0 for d in R + C):
+            res["bad"].append("C15.nonpositive_scale"); return res
+        # unscaled matrix represented by the factors, caller orientation
+        M = [[Z] * n for _ in range(n)]
+        EF = [[Fr(0)] * n for _ in range(n)]
+        for i in range(n):
+            for j in range(n):
+                v = LUp[pr[i]][pc[j]]
+                M[i][j] = (v[0] / (R[i] * C[j]), v[1] / (R[i] * C[j]))
+                EF[i][j] = E[pr[i]][pc[j]]
+        if tr:
+            M = [[M[j][i] for j in range(n)] for i in range(n)]
+        fake = dict(ev); fake["A0"] = []
+        trans = ev["opts"]["Trans"]
+        opA = op_matrix(M, n, trans, cplx)
+        X = [[val(t, cplx) for t in col] for col in ev["X1"]]
+        B = [[val(t, cplx) for t in col] for col in ev["B0"]]
+        effN = (trans == 0) if not tr else (trans != 0)
+        Et = EF if effN else [[EF[j][i] for j in range(n)] for i in range(n)]
+        D1, D2 = (R, C) if effN else (C, R)
+        c = 32 if cplx else 8
+        for k in range(len(X)):
+            x = X[k]; b = B[k]
+            y = [cabs1(x[j]) / D2[j] for j in range(n)]
+            for i in range(n):
+                s_ = Z; ax = Fr(0)
+                for j in range(n):
+                    if opA[i][j] != Z and x[j] != Z:
+                        s_ = cadd(s_, cmul(opA[i][j], x[j])); ax += cabs1(opA[i][j]) * cabs1(x[j])
+                rr = cabs1(csub(b[i], s_))
+                bound = (c * n * eps * sum(Et[i][j] * y[j] for j in range(n)) + n * eps * cabs1(b[i]) * D1[i]) / D1[i]
+                bound = bound * (1 + 8 * eps) + 4 * n * eps * ax
+                if rr > bound:
+                    res["bad"].append("C15.X_is_not_the_preconditioner_solve")
+                    return res
+        res["ilu_solve_checked"] = True
         return res
     if fact != 3:
         bad, ratio, (DL, DU, E) = factor_bound(ev, F, u, reuse=(fact == 2))
@@ -461,7 +520,7 @@ def check_equ(ev):
     return {"bad": bad}
 
 
-CHECKERS = {"gssv": check_gssv, "gstrf": check_gstrf, "gssvx": check_gssvx, "equ": check_equ}
+CHECKERS = {"gssv": check_gssv, "gstrf": check_gstrf, "gssvx": check_gssvx, "gsisx": check_gssvx, "equ": check_equ}
 
 
 def check_line(ev):
